@@ -34,6 +34,8 @@ class KademliaDatagramBase:
         self.packet_type = packet_type
         if self.expected_packet_type != packet_type:
             raise ValueError(f"invalid packet type: {packet_type}, expected {self.expected_packet_type}")
+        if not isinstance(rpc_id, bytes) or not isinstance(node_id, bytes):
+            raise ValueError("rpc_id and node_id must be bytes")
         if len(rpc_id) != constants.RPC_ID_LENGTH:
             raise ValueError(f"invalid rpc node_id: {len(rpc_id)} bytes (expected 20)")
         if not len(node_id) == constants.HASH_LENGTH:
